@@ -274,6 +274,12 @@ class ProgGen:
             if self.r.chance(1, 10): body.append('')
             if self.r.chance(1, 10): body.append(self.r.choice(['# comment', '// comment', '   # c "x" |ff|', '\t']))
             body.append(ln)
+        r2 = self.r.fork('reimport')
+        if head and body and r2.chance(1, 4):
+            # a module imported again in the middle of the program (legal: a remark, nothing else changes)
+            for _ in range(1 + r2.below(2)):
+                body.insert(r2.below(len(body) + 1), r2.choice(head))
+            self.stat('reimport-mid')
         return ('\n'.join(head + body) + '\n').encode()
 
 
